@@ -13,6 +13,17 @@ import (
 // predicate on the INPUT: on its text, on the AST d2parser.Parse returns for it, or on the formatted
 // text f1 / its AST m1 (both functions of the input).
 
+// c03IsBoard: the node is a board block key as d2 defines it since 652bee77b: one UNQUOTED segment layers /
+// scenarios / steps and no edges.  Deliberately not MapNodeBox.IsBoardNode of the linked tree, so that a tree in
+// which the formatter again treats "layers" or layers.(a -> b) as board blocks is not covered by a signature.
+func c03IsBoard(nb d2ast.MapNodeBox) bool {
+	k := nb.MapKey
+	if k == nil || k.Key == nil || len(k.Key.Path) != 1 || len(k.Edges) > 0 || k.Key.Path[0].UnquotedString == nil {
+		return false
+	}
+	return c03BoardWord(k.Key.Path[0].Unbox().ScalarString())
+}
+
 func c03BoardWord(s string) bool { return s == "layers" || s == "scenarios" || s == "steps" }
 
 // dangling: the raw text ends in an unescaped backslash (the parser trimmed the escaped white space after it)
@@ -48,31 +59,45 @@ func c03LastUnquotedRaw(s *d2ast.UnquotedString) (string, bool) {
 //	d  a kept board block inside a one-line map
 //	e  a kept board block that starts on line 0 although something is printed before it (the blank line
 //	   before a board block is keyed on Range.Start.Line != 0)
-func c03BoardLayout(m *d2ast.Map) bool {
+func c03BoardLayout(m *d2ast.Map) bool { return c03BoardCases(m) != "" }
+
+// c03BoardCases: the letters of the situations above that occur in m
+func c03BoardCases(m *d2ast.Map) string {
 	bad := false
+	cases := ""
+	mark := func(l string) {
+		bad = true
+		if !strings.Contains(cases, l) {
+			cases += l
+		}
+	}
 	d2ast.Walk(m, func(n d2ast.Node) bool {
 		mm, ok := n.(*d2ast.Map)
-		if !ok || bad {
-			return !bad
+		if !ok {
+			return true
 		}
 		kept, nonBoard := 0, 0
 		for i, nb := range mm.Nodes {
-			if !nb.IsBoardNode() {
-				if (nb.Comment != nil || nb.BlockComment != nil) && i > 0 && mm.Nodes[i-1].IsBoardNode() &&
+			if !c03IsBoard(nb) {
+				if (nb.Comment != nil || nb.BlockComment != nil) && i > 0 && c03IsBoard(mm.Nodes[i-1]) &&
 					nb.Unbox().GetRange().Start.Line == mm.Nodes[i-1].Unbox().GetRange().End.Line {
-					bad = true // f
+					mark("f")
 				}
-				if nb.MapKey != nil && nb.MapKey.Key != nil && len(nb.MapKey.Key.Path) == 1 {
+				if nb.MapKey != nil && nb.MapKey.Key != nil && len(nb.MapKey.Key.Path) == 1 && len(nb.MapKey.Edges) == 0 {
 					if us, ok := nb.MapKey.Key.Path[0].Unbox().(*d2ast.UnquotedString); ok {
 						v := us.ScalarString()
 						if c03BoardWord(strings.ToLower(v)) && !c03BoardWord(v) {
-							bad = true // a
+							mark("a")
 						}
 					}
 				}
 				if nonBoard == 0 && i > 0 && (mm.IsFileMap() || mm.Range.OneLine() ||
 					nb.Unbox().GetRange().Start.Line-mm.Nodes[i-1].Unbox().GetRange().End.Line > 1) {
-					bad = true // b
+					if mm.Range.OneLine() {
+						mark("B") // "; " garbage
+					} else {
+						mark("b") // spurious / missing blank line only
+					}
 				}
 				nonBoard++
 				continue
@@ -82,25 +107,26 @@ func c03BoardLayout(m *d2ast.Map) bool {
 				continue
 			}
 			if mm.Range.OneLine() && !mm.IsFileMap() {
-				bad = true // d
+				mark("d")
 			}
 			if k.Range.Start.Line == 0 && (nonBoard > 0 || kept > 0 || !mm.IsFileMap()) {
-				bad = true // e
+				mark("e")
 			}
 			kept++
 		}
 		if len(mm.Nodes) > 0 && kept == 0 && nonBoard == 0 {
-			bad = true // c
+			mark("c")
 		}
 		if kept > 0 && nonBoard > 0 {
 			// e also applies to boards that follow the printed nodes on line 0 (one-line file)
 			if mm.Range.OneLine() {
-				bad = true
+				mark("e")
 			}
 		}
-		return !bad
+		return true
 	})
-	return bad
+	_ = bad
+	return cases
 }
 
 func c03Signatures(text string, m *d2ast.Map, f1 string, m1 *d2ast.Map) []string {
@@ -132,7 +158,7 @@ func c03Signatures(text string, m *d2ast.Map, f1 string, m1 *d2ast.Map) []string
 			}
 			if i > 0 && (isComment || isBlock) && n.GetRange().Start.Line == prev.GetRange().End.Line && n.GetRange().OneLine() {
 				if isBlock {
-					add("C03-inline-block-comment")
+					// repaired by 652bee77b (block comments are no longer written inline): no signature
 				} else {
 					// the next printed node (board blocks are skipped) is a comment on the following line
 					j, p := i+1, n
@@ -162,7 +188,7 @@ func c03Signatures(text string, m *d2ast.Map, f1 string, m1 *d2ast.Map) []string
 				ns = append(ns, nb.Unbox())
 			}
 			inline(n, ns, func(i int) (bool, bool, bool) {
-				return n.Nodes[i].Comment != nil, n.Nodes[i].BlockComment != nil, n.Nodes[i].IsBoardNode()
+				return n.Nodes[i].Comment != nil, n.Nodes[i].BlockComment != nil, c03IsBoard(n.Nodes[i])
 			})
 		case *d2ast.Array:
 			var ns []d2ast.Node
@@ -253,26 +279,6 @@ func c03Signatures(text string, m *d2ast.Map, f1 string, m1 *d2ast.Map) []string
 	if c03RawBroken(m) {
 		add("C03-raw-text-not-reparsable")
 	}
-	// splitLeadingIndent counts runes but slices bytes: a line inside a multi-line block string or block
-	// comment whose leading white space contains a multi-byte space
-	lines := strings.Split(text, "\n")
-	d2ast.Walk(m, func(n d2ast.Node) bool {
-		switch n.(type) {
-		case *d2ast.BlockString, *d2ast.BlockComment:
-			r := n.GetRange()
-			for l := r.Start.Line + 1; l <= r.End.Line && l < len(lines); l++ {
-				for _, c := range lines[l] {
-					if !unicode.IsSpace(c) {
-						break
-					}
-					if c >= utf8.RuneSelf {
-						add("C03-block-string-multibyte-indent")
-					}
-				}
-			}
-		}
-		return true
-	})
 	// the C02 defect (Array.Range.End taken from readerPos) seen by the formatter: an array of f1 that is
 	// written on one line but whose range says it spans lines
 	if m1 != nil {
